@@ -179,6 +179,8 @@ def gen_case(rng, index, tier):
     case['tdir_arg'] = link_at if tkind == 'trash-dir-link' else tdir
     case['vol'] = vol
     case['pclass'] = pclass
+    if pclass in ('rel-raw', 'rel-escapes') and rng.random() < 0.35 or rng.random() < 0.02:
+        case['ascii_locale'] = True
     case['tclass'] = tclass
     case['text'] = text
     return case
@@ -191,6 +193,26 @@ def topt(case, w):
 
 
 def run_case(case):
+    if not case.get('ascii_locale'):
+        return _run_case(case)
+    # every command in a fresh interpreter whose LOCALE encoding is ASCII
+    # (open() without an encoding decodes in the locale's), the standard
+    # streams kept UTF-8: the four readers must still agree
+    old = run.MODE, run.COLD_LOCALE
+    run.MODE = 'cold'
+    run.COLD_LOCALE = {'LC_ALL': 'C', 'LANG': 'C', 'PYTHONUTF8': '0',
+                       'PYTHONCOERCECLOCALE': '0',
+                       'PYTHONIOENCODING': 'utf-8:surrogateescape'}
+    try:
+        res = _run_case(case)
+        res.setdefault('features', []).append('locale:ascii')
+        res.setdefault('obs', {})['ascii_locale_cases'] = 1
+        return res
+    finally:
+        run.MODE, run.COLD_LOCALE = old
+
+
+def _run_case(case):
     out = {'violations': [], 'obs': {}, 'features': []}
     obs = out['obs']
     out['features'] += ['t:' + case['tkind'], 'p:' + case['pclass'],
@@ -301,7 +323,11 @@ def run_case(case):
         out['sample_obs'] = {'readings': readings}
         return out
     # ---------------- reading 3: trash-rm on the exact path
-    if case['tkind'] not in ('trash-dir', 'trash-dir-link'):
+    # (under the ASCII locale a listed path with replacement characters cannot
+    # be handed back as an argument: only list vs restore is compared there)
+    ascii_skip = case.get('ascii_locale') and \
+        any(ord(c) > 127 for c in L_raw['path'])
+    if case['tkind'] not in ('trash-dir', 'trash-dir-link') and not ascii_skip:
         abs_listed = L_raw['path']
         with world.World(case) as w:
             p = abs_listed.replace('@R', w.R, 1)
